@@ -514,6 +514,15 @@ func (g *FuncGen) evalCall(n *Node, env *Env) (Val, error) {
 			t = fmt.Sprintf("(s_arr %s)", t)
 		}
 		return Val{fmt.Sprintf("(< %s %s)", t, g.entryAllocFor(env)), tBool}, nil
+	case "pow2": // 2^n for 0 <= n <= 62 (0 elsewhere)
+		a, err := args()
+		if err != nil {
+			return Val{}, err
+		}
+		if len(a) != 1 {
+			return Val{}, fmt.Errorf("pow2 takes one argument")
+		}
+		return Val{fmt.Sprintf("(pow2 %s)", a[0].Term), tInt}, nil
 	case "abs":
 		a, err := args()
 		if err != nil {
